@@ -143,6 +143,19 @@ def gen_models(tier, seed, salt="c01", n_random=None, full_sizes=None):
         spec["cpd"]["sensor0"]["parents"] = ["cause"]
         case["latents"] = []
         yield case
+    # "twin relay" models: cause -> relay_i -> sensor_i with identical CPDs per branch: with both sensors observed in the same state the
+    # two elimination messages over {cause} are content-equal, whatever order eliminates the relays
+    for t in range(2 if quick else 12):
+        names = ["cause", "relay0", "relay1", "sensor0", "sensor1"] + (["other"] if t % 2 else [])
+        edges = [["cause", "relay0"], ["cause", "relay1"], ["relay0", "sensor0"], ["relay1", "sensor1"]] + ([["cause", "other"]] if t % 2 else [])
+        cards = {v: (2 if (t // 2) % 2 == 0 else 3) for v in names}
+        case = _case(rng, names, edges, cards, "int", "pos", "full")
+        spec = case["spec"]
+        for a, b, par in (("relay0", "relay1", "cause"), ("sensor0", "sensor1", "relay1")):
+            spec["cpd"][b] = {"parents": [par], "table": [list(r) for r in spec["cpd"][a]["table"]]}
+            spec["states"][b] = list(spec["states"][a])
+        case["latents"] = []
+        yield case
     nr = n_random if n_random is not None else (24 if quick else 240)
     for i in range(nr):
         n = (4, 5, 5, 6)[i % 4] if quick else (5, 5, 6, 6)[i % 4]
@@ -408,7 +421,8 @@ def groups(tier):
     dags = "all DAGs <= 3 nodes" if quick else "all DAGs <= 4 nodes"
     variants = ("3 random cardinality vectors from {1,2,3} per DAG" if quick else
                 "every cardinality vector from {1,2,3}^n for n <= 3, one random vector per 4-node DAG")
-    rnd = f"{24 if quick else 240} seeded random DAGs on {'4-6' if quick else '5-6'} nodes"
+    rnd = (f"{4 if quick else 24} twin-sensor and {2 if quick else 12} twin-relay models (identical CPDs per branch, enumerated in full), "
+           f"{24 if quick else 240} seeded random DAGs on {'4-6' if quick else '5-6'} nodes")
     common = (f"{dags} ({variants}), {rnd}; state names int/str/mixed/reversed-int/per-node rotation; CPD columns positive, with exact zeros, "
               f"deterministic; shuffled parent and node orders; {fan} hash seeds per case")
     return [
